@@ -119,6 +119,10 @@ class Add(AbstractCommand):
         executable = super().can_execute
         executable = executable and self.value is not None
         self._collection = self.owner.eGet(self.feature)
+        if executable and self.feature.unique \
+                and self.value in self._collection:
+            # nothing would be added, so there would be nothing to undo
+            executable = False
         return executable
 
     @property
@@ -133,10 +137,16 @@ class Add(AbstractCommand):
         self._collection.insert(self.index, self.value)
 
     def do_execute(self):
+        size = len(self._collection)
         if self.index is not None:
+            # remember where insert() really puts the value (it clamps)
+            if self.index < 0:
+                self.index = max(size + self.index, 0)
+            elif self.index > size:
+                self.index = size
             self._collection.insert(self.index, self.value)
         else:
-            self.index = len(self._collection)
+            self.index = size
             self._collection.append(self.value)
 
 
